@@ -123,14 +123,16 @@ func (s *socket) SendMsg(m *protocol.Message) error {
 
 func (s *socket) RecvMsg() (*protocol.Message, error) {
 	timeQ := nilQ
+	s.Lock()
+	if s.recvExpire > 0 {
+		timeQ = time.After(s.recvExpire)
+	}
+	s.Unlock()
 	for {
 		s.Lock()
 		recvQ := s.recvQ
 		sizeQ := s.sizeQ
 		closeQ := s.closeQ
-		if timeQ == nil && s.recvExpire > 0 {
-			timeQ = time.After(s.recvExpire)
-		}
 		s.Unlock()
 		select {
 		case <-closeQ:
